@@ -192,6 +192,19 @@ def _replace_stream(case, out):
         w.next_book(mid)
         m = w.market(mid)
         ex = w.exchange
+        # several orders in one request (one explicit transaction): each instruction that reaches the exchange carries its own order's
+        # reference, and the references come back to the orders that produced them
+        grp = [livecases.make_order(st, mid, sel=rng.choice((701, 702, 703)), side=rng.choice(("BACK", "LAY")), price=3.0 + k_, size=2.0 + k_, persistence="LAPSE") for k_ in range(rng.randint(2, 4))]
+        with m.transaction() as t_:
+            for o in grp:
+                t_.place_order(o)
+        w.executor.run_all()
+        w.snapshot()
+        for o in grp:
+            out.rule("roundtrip")
+            mine = [b for b in ex.bets.values() if b["customerOrderRef"] == o.customer_order_ref]
+            if len(mine) != 1 or str(o.bet_id) != mine[0]["betId"] or abs(mine[0]["priceSize"]["price"] - o.order_type.price) > 1e-9:
+                out.v("reference-sent-for-wrong-order", {"package_orders": len(grp)}, ref=o.customer_order_ref, bets_with_ref=len(mine), order_bet=o.bet_id, order_price=o.order_type.price, bet_prices=[b["priceSize"]["price"] for b in mine])
         for j in range(rng.randint(2, 5)):
             o = livecases.make_order(st, mid, sel=rng.choice((701, 702, 703)), side=rng.choice(("BACK", "LAY")), price=3.0, size=4.0, persistence="PERSIST")
             m.place_order(o)
@@ -211,10 +224,19 @@ def _replace_stream(case, out):
                     out.v("update-of-replacement-bet-attributed-to-replaced-order", {}, order_bet=own_bet, attributed_bet=str(cur.bet_id), ref=o.customer_order_ref)
                 if abs((o.size_matched or 0.0)) > 1e-9:
                     out.v("update-of-replacement-bet-attributed-to-replaced-order", {"field": "size_matched"}, order_bet=own_bet, size_matched=o.size_matched)
+                # splitting the reference still leads to the order that produced it, and to nothing else
+                if m.blotter._orders.get(o.id) is not o or sum(1 for x in m.blotter if x.customer_order_ref == o.customer_order_ref and x.trade is not o.trade) > 0:
+                    out.v("reference-attributed-to-wrong-order-or-strategy", {"replaced": True, "when": "stream-before-response"}, ref=o.customer_order_ref, n_orders=len(m.blotter))
             w.executor.run_all()
             w.snapshot()
             out.rule("roundtrip")
             rep = [x for x in o.trade.orders if x is not o]
+            if m.blotter._orders.get(o.id) is not o:
+                out.v("reference-attributed-to-wrong-order-or-strategy", {"replaced": True, "when": "after-response"}, ref=o.customer_order_ref)
+            # each bet of the exchange belongs to exactly one local order
+            for b in ex.bets.values():
+                if b["customerOrderRef"] == o.customer_order_ref and sum(1 for x in m.blotter if str(x.bet_id) == b["betId"]) > 1:
+                    out.v("bet-attributed-to-several-orders", {"replaced": True}, bet=b["betId"], ref=o.customer_order_ref)
             for x in rep:
                 b = ex.bets.get(str(x.bet_id))
                 if b is None or b["customerOrderRef"] != o.customer_order_ref or m.blotter.get_order_bet_id(x.bet_id) is not x:
